@@ -417,6 +417,19 @@ func Eq(a, b *Term) *Term {
 			return Not(a)
 		}
 	}
+	// decimal rendering is injective on non-negative integers; bv2nat is injective
+	if a.Op == OpSFromInt && b.Op == OpSFromInt && nonNeg(a.Args[0]) && nonNeg(b.Args[0]) {
+		return Eq(a.Args[0], b.Args[0])
+	}
+	if a.Op == OpBV2Int && b.Op == OpBV2Int && a.Args[0].Sort == b.Args[0].Sort {
+		return Eq(a.Args[0], b.Args[0])
+	}
+	if a.Op == OpIte && (b.Op == OpSFromInt || b.Op == OpBV2Int) && (a.Args[1].Op == b.Op || a.Args[2].Op == b.Op) {
+		return Ite(a.Args[0], Eq(a.Args[1], b), Eq(a.Args[2], b))
+	}
+	if b.Op == OpIte && (a.Op == OpSFromInt || a.Op == OpBV2Int) && (b.Args[1].Op == a.Op || b.Args[2].Op == a.Op) {
+		return Ite(b.Args[0], Eq(a, b.Args[1]), Eq(a, b.Args[2]))
+	}
 	// eq(ite(c, k1, k2), k) with constants folds
 	if b.IsConst() && a.Op == OpIte {
 		return Ite(a.Args[0], Eq(a.Args[1], b), Eq(a.Args[2], b))
@@ -689,7 +702,14 @@ func SLess(a, b *Term) *Term {
 	return mk(OpStrLt, Bool, a, b)
 }
 
+func nonNeg(a *Term) bool {
+	return a.Op == OpBV2Int || a.Op == OpSLen || (a.IsConst() && a.I >= 0)
+}
+
 func SFromInt(a *Term) *Term {
+	if a.Op == OpIte {
+		return Ite(a.Args[0], SFromInt(a.Args[1]), SFromInt(a.Args[2]))
+	}
 	if a.IsConst() {
 		if a.I < 0 {
 			return StrC("")
@@ -797,6 +817,9 @@ func ICmp(op Op, a, b *Term) *Term {
 func BV2Int(a *Term) *Term {
 	if a.IsConst() {
 		return IntC(int64(a.U))
+	}
+	if a.Op == OpIte {
+		return Ite(a.Args[0], BV2Int(a.Args[1]), BV2Int(a.Args[2]))
 	}
 	if a.Op == OpInt2BV {
 		// only valid when in range; callers use it on lengths
